@@ -177,7 +177,7 @@ type World struct {
 	cancel context.CancelFunc
 
 	observers []func(ev DBEvent)
-	wireObs   []func(rec *RPCRecord)
+	wireTaps  []func(ev *WireEvent)
 }
 
 // DBEvent is passed to storage observers after a call returned.
@@ -450,8 +450,13 @@ func (w *World) roundTrip(req *http.Request) (*http.Response, error) {
 	if w.keepRPCs {
 		rec.RespBody = respBody
 	}
-	for _, o := range w.wireObs {
-		o(rec)
+	if len(w.wireTaps) > 0 {
+		if ev := decodeWire(rec, req.Header, body, resp.StatusCode, resp.Header, respBody); ev != nil {
+			ev.Lost = nf != nil && nf.Kind == "drop_resp"
+			for _, o := range w.wireTaps {
+				o(ev)
+			}
+		}
 	}
 	if nf != nil && nf.Kind == "drop_resp" {
 		w.fault("net_drop_response")
@@ -522,6 +527,14 @@ func (w *World) DeliverHeld(i int) (proc string, status int, ok bool) {
 	rec.Status = resp.StatusCode
 	if w.keepRPCs {
 		rec.RespBody = rb
+	}
+	if len(w.wireTaps) > 0 {
+		if ev := decodeWire(rec, h.Header, h.Body, resp.StatusCode, resp.Header, rb); ev != nil {
+			ev.Stale, ev.Lost = true, true
+			for _, o := range w.wireTaps {
+				o(ev)
+			}
+		}
 	}
 	return h.Proc, resp.StatusCode, true
 }
